@@ -211,11 +211,7 @@ Lemma run_shape : forall f e,
   run f e = match decide f with
             | Rejected UsageConflict => ([Diag Stderr], 2)
             | Rejected _ => do_creates e (opt_list (f_log_file f)) ([Diag Logger], 1)
-            | HelpMarkdown => do_creates e (opt_list (f_log_file f))
-                                (match e_write e Stdout HelpDoc with
-                                 | IoOk => ([Written Stdout HelpDoc], 0)
-                                 | _ => ([WriteFailed Stdout HelpDoc; PanicEv], 101)
-                                 end)
+            | HelpMarkdown => do_creates e (opt_list (f_log_file f)) (do_writes e [(Stdout, HelpDoc)])
             | Plan p => do_creates e (opt_list (f_log_file f)) (exec p e)
             end.
 Proof. intros f e. unfold run. destruct (decide f) as [[]| |]; reflexivity. Qed.
@@ -243,20 +239,42 @@ Proof.
     apply Ru2 in H. rewrite Hp in H. discriminate.
 Qed.
 
-(* with the hidden --help-markdown the only further status is the expect() panic's 101 *)
+(* the same for every flag record, --help-markdown included *)
+Lemma exit_codes_all : forall f e,
+  (snd (run f e) = 0 \/ snd (run f e) = 1 \/ snd (run f e) = 2) /\
+  (snd (run f e) = 2 <-> 1 < group_count f).
+Proof.
+  intros f e. destruct (f_help_md f) eqn:Hh; [|exact (exit_codes f e Hh)].
+  rewrite run_shape.
+  destruct (rejections f) as [[Ru1 Ru2] _].
+  destruct (total f) as [[r Hr]|[[Hm Hm']|[p [Hp Hp']]]]; [| |congruence].
+  - rewrite Hr. destruct r.
+    + cbn. split; [auto|]. split; intros _; [apply Ru1; exact Hr|reflexivity].
+    + assert (C : code_ok (do_creates e (opt_list (f_log_file f)) ([Diag Logger], 1))) by (apply do_creates_code; right; reflexivity).
+      split; [destruct C; auto|]. split; intros H; [destruct C as [C|C]; rewrite C in H; discriminate|].
+      apply Ru2 in H. rewrite Hr in H. discriminate.
+    + assert (C : code_ok (do_creates e (opt_list (f_log_file f)) ([Diag Logger], 1))) by (apply do_creates_code; right; reflexivity).
+      split; [destruct C; auto|]. split; intros H; [destruct C as [C|C]; rewrite C in H; discriminate|].
+      apply Ru2 in H. rewrite Hr in H. discriminate.
+  - rewrite Hm.
+    assert (C : code_ok (do_creates e (opt_list (f_log_file f)) (do_writes e [(Stdout, HelpDoc)]))) by (apply do_creates_code, do_writes_code).
+    split; [destruct C; auto|]. split; intros H; [destruct C as [C|C]; rewrite C in H; discriminate|].
+    apply Ru2 in H. rewrite Hm in H. discriminate.
+Qed.
+
+(* the hidden --help-markdown included (its write error is propagated with `?` since the fix of F-C20e; it was an
+   expect(), status 101): 0, 1 or 2 for EVERY flag record and environment *)
 Lemma exit_codes_help : forall f e,
-  snd (run f e) = 0 \/ snd (run f e) = 1 \/ snd (run f e) = 2 \/
-  (snd (run f e) = 101 /\ f_help_md f = true /\ e_write e Stdout HelpDoc <> IoOk).
+  snd (run f e) = 0 \/ snd (run f e) = 1 \/ snd (run f e) = 2.
 Proof.
   intros f e. destruct (f_help_md f) eqn:Hh.
   - rewrite run_shape. destruct (total f) as [[r Hr]|[[Hm _]|[p [Hp Hp']]]]; [| |congruence].
     + rewrite Hr. destruct r; cbn; auto;
         (assert (C : code_ok (do_creates e (opt_list (f_log_file f)) ([Diag Logger], 1))) by (apply do_creates_code; right; reflexivity));
         destruct C; auto.
-    + rewrite Hm. destruct (f_log_file f) as [lp|]; cbn.
-      * destruct (e_create e lp); cbn; auto.
-        destruct (e_write e Stdout HelpDoc) eqn:E; cbn; auto; right; right; right; repeat split; congruence.
-      * destruct (e_write e Stdout HelpDoc) eqn:E; cbn; auto; right; right; right; repeat split; congruence.
+    + rewrite Hm.
+      assert (C : code_ok (do_creates e (opt_list (f_log_file f)) (do_writes e [(Stdout, HelpDoc)]))) by (apply do_creates_code, do_writes_code).
+      destruct C; auto.
   - destruct (exit_codes f e Hh) as [[H|[H|H]] _]; auto.
 Qed.
 
